@@ -20,7 +20,8 @@ from sim import outcome, rng, seams, shrink, workload
 ID = "C06"
 MODULE = "checks.c06_history"
 VERIF = os.path.dirname(os.path.dirname(os.path.abspath(__file__)))
-CTXS = [[], [], [], [], [], [], ["numpy.einsum"], ["numpy.numpylike"], ["numpy.einsum", "numpy"]]
+CTXS = [[], [], [], [], [], [], [], [], ["numpy.einsum"], ["numpy.numpylike"], ["numpy.einsum", "numpy"], ["numpy", "numpy.einsum"], ["numpy", "numpy.einsum", "numpy"],
+        ["numpy.numpylike", "numpy.einsum", "numpy.numpylike", "numpy"]]
 
 
 # ------------------------------------------------------------------------------------------------
@@ -202,7 +203,7 @@ def run_history(seed, ops, cfg, pool=None, want_full=None):
     stats = {"ops": 0, "judged_ops": 0, "unjudged_faulted_ops": 0}
     faults = {"F-parse": 0, "F-run-or-reject": 0, "F-alias": 0, "F-dep-sympy": 0, "F-dep-exec": 0, "F-dep-numpy": 0, "F-dep-inspect": 0, "F-async": 0, "F-evict": 0}
     probes = {"cache_hit_identical": 0, "cache_hit_after_alias": 0, "after_failing_call": 0, "after_injected_fault": 0, "inside_with_block": 0, "async_fired_in_tracing": 0,
-              "fault_fired_but_call_succeeded": 0}
+              "fault_fired_but_call_succeeded": 0, "with_block_left_by_exception": 0}
     sigs = set()
     inv = []
     seen = set()
@@ -218,7 +219,12 @@ def run_history(seed, ops, cfg, pool=None, want_full=None):
             common += 1
         while len(stack) > common:
             n, b = stack.pop()
-            b.__exit__(None, None, None)
+            if prev == "failed":  # the block is left through the exception of its last call
+                probes["with_block_left_by_exception"] += 1
+                exc = RuntimeError("propagating out of the with block")
+                b.__exit__(type(exc), exc, None)
+            else:
+                b.__exit__(None, None, None)
         for n in ctx[common:]:
             b = einx.backend.get(n)
             b.__enter__()
